@@ -256,7 +256,25 @@ impl GenericsAnalyzer {
                             let first_segment = type_path.path.segments.first().unwrap();
 
                             if &first_segment.ident == generic_param_ident {
-                                let where_paths = extract_trait_bounds(&predicate_type.bounds);
+                                let mut where_paths = extract_trait_bounds(&predicate_type.bounds);
+
+                                // `where for<'x> D: Foo<'x>`: the binder goes with each bound
+                                if let Some(bound_lifetimes) = &predicate_type.lifetimes {
+                                    for bound in where_paths.iter_mut() {
+                                        if let syn::TypeParamBound::Trait(trait_bound) = bound {
+                                            match &mut trait_bound.lifetimes {
+                                                Some(own) => {
+                                                    let mut merged = bound_lifetimes.lifetimes.clone();
+                                                    merged.extend(own.lifetimes.iter().cloned());
+                                                    own.lifetimes = merged;
+                                                }
+                                                None => {
+                                                    trait_bound.lifetimes = Some(bound_lifetimes.clone())
+                                                }
+                                            }
+                                        }
+                                    }
+                                }
 
                                 deps_trait_bounds.extend(where_paths);
                             }
